@@ -165,7 +165,7 @@ func Run(run *core.Run) core.Coverage {
 			}
 			return 0
 		}
-		budget = 11 * time.Minute
+		budget = 10*time.Minute + 30*time.Second
 	}
 	if v := os.Getenv("C05B_RUNGS"); v != "" { // development aid: "1:0,0:-1"
 		rungs = nil
@@ -299,7 +299,7 @@ func Run(run *core.Run) core.Coverage {
 
 // ---------------------------------------------------------------- free-running -race pass
 
-var raceFn = regexp.MustCompile(`chain/app/evm\.([A-Za-z0-9_.()*]+)`)
+var raceFn = regexp.MustCompile(`chain/app/evm\.([A-Za-z0-9_]+)[A-Za-z0-9_.]*\(\)\n\s+\S+?:(\d+)`)
 
 func racePass(run *core.Run, cov core.Coverage, foundKinds map[string]int) {
 	bin := os.Getenv("C05B_RACE_BIN")
@@ -332,28 +332,40 @@ func racePass(run *core.Run, cov core.Coverage, foundKinds map[string]int) {
 		core.Fatal("race pass: %v\n%s\n%s", err, so.String(), tail(se.String(), 2000))
 	}
 	reports := strings.Count(se.String(), "WARNING: DATA RACE")
-	fns := map[string]bool{}
-	for _, m := range raceFn.FindAllStringSubmatch(se.String(), -1) {
-		fns[strings.TrimSuffix(m[1], "()")] = true
+	// candidates: the two racing accesses of every report, as function:line of chain/app/evm
+	cands := map[string]int{}
+	for _, rp := range strings.Split(se.String(), "WARNING: DATA RACE")[1:] {
+		var acc []string
+		for _, sec := range strings.SplitN(rp, "Previous ", 2) {
+			if m := raceFn.FindStringSubmatch(sec); m != nil {
+				acc = append(acc, m[1]+":"+m[2])
+			}
+		}
+		sort.Strings(acc)
+		cands[strings.Join(acc, " / ")]++
 	}
-	var fl []string
-	for f := range fns {
-		fl = append(fl, f)
-	}
-	sort.Strings(fl)
 	res["free_runs"] = sum.Runs
 	res["reps_per_block_and_count"] = sum.PerConfig
 	res["data_race_reports"] = reports
-	res["functions_in_race_reports"] = fl
+	res["race_candidates"] = cands
 	res["free_run_oracle_mismatches"] = sum.Mismatches
-	confirmed := foundKinds["invalid-tx-reported-valid/badsig"] > 0
+	var conf []string
+	if foundKinds["invalid-tx-reported-valid/badsig"] > 0 {
+		conf = append(conf, "appTx.err (written by tryValidate after it published Failed, read by the executing loop): CONFIRMED — SCHED schedules end with an invalid-signature transaction reported valid")
+	}
+	for k := range foundKinds {
+		if strings.HasPrefix(k, "end-callback-raw-bytes-differ/") {
+			conf = append(conf, "appTx.oribys (written by txQueue after it published Init, read by the executing loop): CONFIRMED — SCHED schedules hand nil bytes to the end callback")
+			break
+		}
+	}
 	switch {
-	case reports == 0:
+	case reports == 0 && len(sum.Mismatches) == 0:
 		res["status"] = "clean"
-	case confirmed:
-		res["status"] = "race reports are violation CANDIDATES; the race on appTx.err (tryValidate writes it after publishing Failed, the executing loop reads it) is CONFIRMED by SCHED schedules with a wrong outcome (invalid-tx-reported-valid)"
 	default:
-		res["status"] = "race reports are violation CANDIDATES only: no SCHED schedule within the bound exhibits a wrong outcome"
+		res["status"] = "race reports and free-run mismatches are violation CANDIDATES only; a candidate counts when a SCHED schedule exhibits a wrong outcome on the raced field"
+		res["confirmed_by_sched"] = conf
+		res["not_confirmed"] = "any other candidate (e.g. WaitGroup.Add in txQueue concurrent with Wait in the executing loop: under SCHED a Wait on a zero counter returns at once and the loop re-reads the status word; no schedule within the bound ends wrong because of it)"
 	}
 	cov["race_pass"] = res
 }
